@@ -354,14 +354,14 @@ ADDENDA7 = {
     "C02": " Round 7: R2.13 = kernel rules of C03.",
     "C04": " Round 7: R4.8 = kernel rules of C03.",
     "C05": " Round 7: R5.4 rewritten as value-level tables; R5.11 = kernel rules of C03; R5.12 signed_area of Triangle / Rect / Polygon ring translated by 1e8 within 1e-6 of the exact rational area (found and fixed: Triangle::signed_area).",
-    "C06": " Round 7: R6.8 Rect::center also for extents beyond the largest float; R6.12 = R5.12 (areas are the centroid weights).",
+    "C06": " Round 7: R6.8 Rect::center also for extents beyond the largest float; R6.12 = R5.12 (areas are the centroid weights); R6.13 centroid of a numerically flat, not collinear triangle is finite (found and fixed).",
     "C07": " Round 7: R7.7 the point kernel on witnesses at 2^600 / 2^-600 (value-level); R7.8 point-segment kernels also translated by (1e15, 2e15); R7.14 Line-Line intersects table (C11 R11.4).",
     "C09": " Round 7: R9.9 includes the far-offset witnesses of R7.8.",
-    "C10": " Round 7: R10.12 = kernel rules of C03.",
+    "C10": " Round 7: R10.12 = kernel rules of C03; R10.13 snap_or_register_point on witnesses near the origin and translated by 1e6 (snaps exactly below the given radius).",
     "C11": " Round 7: R11.8 also on the grid scaled by 2^-27, 2^-40 and 2^20; R11.9 the comparison helpers value_in_between / point_in_rect, also at 2^-600 / 2^600.",
     "C12": " Round 7: R12.9 = kernel rules of C03; R12.10 = point kernel (R7.7).",
     "C13": " Round 7: R13.11 = point kernel (R7.7); R13.12 AffineTransform::skew on tiny angles evaluated with the machine epsilon of f64 and of f32.",
-    "C14": " Round 7: R14.11 = kernel rules of C03; R14.12 = relate exactness (C01 R1.5).",
+    "C14": " Round 7: R14.11 = kernel rules of C03; R14.12 = relate exactness (C01 R1.5), incl. orientation-test arguments that are arithmetic-filled struct fields.",
     "C15": " Round 7: R15.10 = Rhumb wrap and Haversine / Rhumb laws (C16 R16.5 / R16.7).",
     "C17": " Round 7: R17.6 GeometryCow (what a PreparedGeometry answers HasDimensions with) delegates is_empty / dimensions / boundary_dimensions to the wrapped geometry, variant by variant.",
     "C18": " Round 7: R18.6 also tabulates Triangle::new (UTM-like offsets, rational reference) and Coord::eq (integers beyond 2^53).",
